@@ -122,6 +122,39 @@ def acceptsBlock (bs : List Byte) (measured : List Nat) : Bool :=
       && withinTolerance body (restM.take body.length)
       && (match pause with | [p] => 3000000 ≤ p && p ≤ 4500000 | _ => false)
 
+/-- The same tolerance for a pulse that was only *sampled*: its true length is known to lie strictly
+between `lo` and `hi` (edges located between two samples). Acceptable iff some length in that open
+interval is within tolerance — the tolerance widened by exactly the sampling resolution. -/
+def pulseOkWide (nominalLen lo hi : Nat) : Bool := max (lo + 1) nominalLen ≤ min (hi - 1) (nominalLen + 32)
+
+/-- The first `k` pulses together, sampled: their total length lies strictly between `lo` and `hi`.
+If every pulse is within tolerance the total is within `total … total + 32·k`; acceptable iff some
+total in the open interval is. (This is what still bites when single samples are far apart.) -/
+def sumOkWide (nominalSum k lo hi : Nat) : Bool := max (lo + 1) nominalSum ≤ min (hi - 1) (nominalSum + 32 * k)
+
+def withinToleranceWide : List Nat → List (Nat × Nat) → Bool
+  | _, [] => true
+  | [], _ :: _ => false
+  | n :: ns, a :: as => pulseOkWide n a.1 a.2 && withinToleranceWide ns as
+
+/-- `acceptsBlock` for sampled pulses `(lo, hi)`; `pauseSeen = false`: the observation ended in the
+silence after the block (last block of the tape), so the pause itself was not measured. -/
+def acceptsBlockWide (bs : List Byte) (measured : List (Nat × Nat)) (pauseSeen : Bool) : Bool :=
+  match bs with
+  | [] => false
+  | flag :: _ =>
+    let pilot := measured.takeWhile (fun a => pulseOkWide 2168 a.1 a.2)
+    let restM := measured.drop pilot.length
+    let body := [667, 735] ++ bs.flatMap bytePulses
+    let pilotOk := if flag = 0 then pilot.length = 8063 else pilot.length ≥ 3223
+    let pause := restM.drop body.length
+    decide pilotOk && restM.length = body.length + (if pauseSeen then 1 else 0)
+      && withinToleranceWide body (restM.take body.length)
+      && (match pause with
+          | [p] => 3000000 < p.2 && p.1 < 4500000
+          | [] => !pauseSeen
+          | _ => false)
+
 /-- A decoder that classifies a pair of equal pulses by a threshold: bit = 1 iff longer. -/
 def decodeBits (threshold : Nat) : List Nat → List Bool
   | a :: _ :: rest => (decide (a > threshold)) :: decodeBits threshold rest
